@@ -73,6 +73,22 @@ let down_line line =
   Printf.printf "%s liquibase.0 %s\n" id (hs (liquibase_file now cs));
   show_res id "dbmate.0" (dbmate_file cs)
 
+(* mode "alter": <id> <dialect> <n> <arm>*n, arm = hex of "<kind letter>:<object key>" *)
+let alter_line line =
+  let toks = Array.of_list (String.split_on_char ' ' line) in
+  let id = toks.(0) and dialect = toks.(1) in
+  let n = int_of_string toks.(2) in
+  let arms = Stdlib.List.init n (fun i ->
+      let s = unhex toks.(3 + i) in
+      let kind = match s.[0] with
+        | 'o' -> KOther | 'd' -> KDropConst | 'c' -> KCheckNamed | 'u' -> KCheckUnnamed
+        | 'g' -> KGenerated | 'a' -> KAttr | _ -> failwith "arm kind" in
+      { a_kind = kind; a_key = bytes_of_string (String.sub s 2 (String.length s - 2)) }) in
+  let r = if dialect = "postgres" then alterTable_postgres arms else alterTable_mysql arms in
+  match reverse_objects r with
+  | None -> Printf.printf "%s A none\n" id
+  | Some ks -> Printf.printf "%s A %s\n" id (String.concat " " (Stdlib.List.map string_of_bytes ks))
+
 let () =
   let mode = if Array.length Sys.argv > 1 then Sys.argv.(1) else "down" in
   (try
@@ -81,6 +97,7 @@ let () =
       if line <> "" then
         match mode with
         | "down" -> down_line line
+        | "alter" -> alter_line line
         | _ -> failwith ("unknown mode " ^ mode)
     done
   with End_of_file -> ())
